@@ -3,6 +3,8 @@ package c14
 import (
 	"bytes"
 	"fmt"
+	"runtime"
+	"strings"
 	"sync"
 	"sync/atomic"
 	"time"
@@ -23,6 +25,22 @@ import (
 
 // watchdog for quiescence waits; its firing makes the run INCONCLUSIVE, never a violation.
 const watchdog = 30 * time.Second
+
+// stopGrace is how long a stopped service's OnStart is waited for.
+const stopGrace = 2 * time.Second
+
+// serviceStack returns the stack of the goroutine(s) still inside EVMIndexerService.OnStart.
+func serviceStack() string {
+	buf := make([]byte, 1<<20)
+	buf = buf[:runtime.Stack(buf, true)]
+	var out []string
+	for _, g := range strings.Split(string(buf), "\n\n") {
+		if strings.Contains(g, "(*EVMIndexerService).OnStart(") && !strings.Contains(g, "OnStart.func") {
+			out = append(out, trunc(g, 900))
+		}
+	}
+	return strings.Join(out, "\n\n")
+}
 
 // tapIndexer delegates everything to the real KVIndexer and only records when IndexBlock
 // returned, so that the driver can wait for quiescence without guessing from timing.
@@ -86,6 +104,9 @@ type sessionOutcome struct {
 	indexed  int64 // IndexBlock calls
 	maxRet   int64
 	first    int64
+	// OnStart did not return within stopGrace after Stop (observation, not a verdict)
+	stopHung  bool
+	stopStack string
 }
 
 // session runs the REAL EVMIndexerService + KVIndexer over db against a fresh fake node whose head
@@ -128,19 +149,25 @@ func (h *history) session(db dbm.DB, crash *CrashDB, startHead, publishTo int64)
 	// the service must be running before it can be stopped (Start marks it started before OnStart)
 	wait(func() bool { return fake.Status_.Load() > 0 })
 	_ = svc.Stop()
+	// OnStart normally returns at once. It is not waited for beyond a grace period: the verdict is the
+	// database content, the chain head is fixed, every block up to it has been processed (or the database
+	// is dead), so a service goroutine that fails to return cannot change the outcome any more.
 	select {
 	case err := <-done:
 		if out.startErr == nil {
 			out.startErr = err
 		}
-	case <-time.After(watchdog):
-		out.watchdog = true
+	case <-time.After(stopGrace):
+		out.stopHung = true
+		out.stopStack = serviceStack()
 	}
 	out.indexed, out.maxRet, out.first = tap.calls.Load(), tap.maxReturned.Load(), tap.first.Load()
 	return out
 }
 
 type crashPointResult struct {
+	stopHung   int
+	stopStack  string
 	k          int64
 	applied    bool
 	restartAt  int64
@@ -218,6 +245,12 @@ func (h *history) enumerate(res *Result, r *vh.RNG, workers int) {
 	for _, cp := range out {
 		side := map[bool]string{false: "batch-lost", true: "batch-applied"}[cp.applied]
 		res.Evals++
+		if cp.stopHung > 0 {
+			res.Count("sessions_whose_OnStart_did_not_return_within_2s_after_Stop", cp.stopHung)
+			if len(res.Samples) < 1 {
+				res.Samples = append(res.Samples, map[string]any{"observation": "EVMIndexerService.OnStart still running 2 s after Stop()", "history": h.label, "k": cp.k, "stack": cp.stopStack})
+			}
+		}
 		res.Count("crash_points_enumerated", 1)
 		res.Count("crash_points_"+side, 1)
 		pos := "middle"
@@ -261,6 +294,10 @@ func (h *history) crashPoint(k int64, applied bool, variant int, ref []byte, fir
 	db := h.initialDB()
 	crash := NewCrashDB(db, k, applied)
 	so := h.session(crash, crash, h.start, h.end)
+	if so.stopHung {
+		cp.stopHung++
+		cp.stopStack = so.stopStack
+	}
 	if so.watchdog {
 		cp.watchdog = true
 		return cp
@@ -285,6 +322,10 @@ func (h *history) crashPoint(k int64, applied bool, variant int, ref []byte, fir
 	}
 	cp.restartAt = restartHead
 	so2 := h.session(db, nil, restartHead, h.end)
+	if so2.stopHung {
+		cp.stopHung++
+		cp.stopStack = so2.stopStack
+	}
 	if so2.watchdog {
 		cp.watchdog = true
 		return cp
